@@ -168,6 +168,61 @@ theorem tq_convoy_can_step (cfg : Cfg) (s : St) (q : Nat) (hq : q < s.nq)
   all_goals (first | (split <;> simp) | skip)
   all_goals (first | (split <;> (first | simp | (split <;> simp))) | skip)
 
+/-- **Bounded progress (no fairness assumption beyond "the convoy gets scheduled").**  In every reachable
+state in which flow `k` has a waiting task `t` at the head of its queue and the flow's convoy is not
+running a task, EVERY continuation schedule — any steps of any producers and of any other convoys, idle
+timer firings and spurious wake-ups at any moment — that contains five steps of the flow's convoy passes
+through a state in which the convoy runs `t`, before the convoy has made more than five steps.  The
+idle-GC path cannot take the queue away in between: its re-checks fail and its claiming CAS fails. -/
+theorem tq_head_runs_within_five_convoy_steps (cfg : Cfg) (hcfg : cfg.Repaired) (s : St)
+    (hr : Reachable cfg s) (k q t : Nat) (rest : List Nat) (hm : s.map k = some q)
+    (hidle : executing s q = false) (hp : pending s k = t :: rest)
+    (as : List Act) (s' : St) (hrun : run cfg s as = some s') (h5 : 5 ≤ convSteps q as) :
+    ∃ as₁ as₂ s₁, as = as₁ ++ as₂ ∧ run cfg s as₁ = some s₁ ∧ (s₁.qs q).cpc = .exec t ∧
+      convSteps q as₁ ≤ 5 := by
+  have hne : ∀ t', (s.qs q).cpc ≠ .exec t' := by
+    intro t' hc; unfold executing at hidle; rw [hc] at hidle; cases hidle
+  have hh := head_of_pending hm hne hp
+  obtain ⟨a1, a2, s1, e, r, x, b⟩ := head_runs hcfg k q t as s s' (inv_reachable hcfg hr) hh
+    (Nat.le_trans (rank_le_five _) h5) hrun
+  exact ⟨a1, a2, s1, e, r, x, Nat.le_trans b (rank_le_five _)⟩
+
+/-- … and a running task is finished (appended to its flow's completion log) by the convoy's next step,
+after which the next waiting task is the head (`tq_exactly_once_in_order`). -/
+theorem tq_running_task_finishes_next_step (cfg : Cfg) (hcfg : cfg.Repaired) (s : St) (q t : Nat)
+    (hq : q < s.nq) (hc : (s.qs q).cpc = .exec t) (sel : Sel) :
+    ∃ s', stepConv cfg s q sel = some s' ∧ s'.done (s.qs q).key = s.done (s.qs q).key ++ [t] ∧
+      (s'.qs q).cpc = .top :=
+  exec_finishes hcfg hq hc sel
+
+/-- the convoy sits in its idle check (`chk2`: it has just seen `refs = 0`) when task 1 is emitted and
+enqueued; its next two steps (`len(ch) > 0`: back to the loop top; channel poll) start task 1 -/
+def exProgress : List Act :=
+  [ .spawn 0, .prod 0 none, .prod 0 none, .prod 0 none, .prod 0 none, .prod 0 none, .prod 0 none,
+    .conv 0 .recv, .conv 0 .recv, .conv 0 .recv, .conv 0 .recv, .conv 0 .timer, .conv 0 .timer,
+    .spawn 0, .prod 1 none, .prod 1 none, .prod 1 none, .prod 1 none ]
+
+example : ∃ s, Reachable fixedCfg s ∧ s.map 0 = some 0 ∧ executing s 0 = false ∧ pending s 0 = [1] ∧
+    (s.qs 0).cpc = .chk2 ∧
+    (run fixedCfg s [.conv 0 .timer, .conv 0 .timer]).map
+      (fun s' => (s'.qs 0).cpc) = some (.exec 1) := by
+  cases h : run fixedCfg init exProgress with
+  | none => exact absurd h (by decide)
+  | some s =>
+    refine ⟨s, reachable_of_run fixedCfg exProgress init s Reachable.init h, ?_, ?_, ?_, ?_, ?_⟩
+    · have : (run fixedCfg init exProgress).map (fun s => s.map 0) = some (some 0) := by decide
+      rw [h] at this; simpa using this
+    · have : (run fixedCfg init exProgress).map (fun s => executing s 0) = some false := by decide
+      rw [h] at this; simpa using this
+    · have : (run fixedCfg init exProgress).map (fun s => pending s 0) = some [1] := by decide
+      rw [h] at this; simpa using this
+    · have : (run fixedCfg init exProgress).map (fun s => (s.qs 0).cpc) = some .chk2 := by decide
+      rw [h] at this; simpa using this
+    · have : ((run fixedCfg init exProgress).bind fun s =>
+          (run fixedCfg s [.conv 0 .timer, .conv 0 .timer]).map
+            (fun s' => (s'.qs 0).cpc)) = some (.exec 1) := by decide
+      rw [h] at this; simpa using this
+
 /-! ### the protocol before the two fixes (witnesses; the harness replays these schedules on the
 real code on every run as revert tests) -/
 
@@ -838,9 +893,144 @@ example :
      (handle s2 (exFlow false true) []).2, (handle s3 (exFlow false false) []).2, s3.dials)
       = (some 0, some 0, some 0, some 0, 1) := by decide
 
+/-- **The stream's function is the theorems' function.**  The `c13_hp` stream is compared with `handleD`
+(scripted dial outcomes, negative cache, time); with no dial scripted to fail and an empty negative cache it
+is `handle`, the function `same_flow_same_endpoint` and `first_packet_establishes_endpoint` are about. -/
+theorem route_scripted_dials_refine_handle (s : Route.St) (p : Pkt) (ws : List Bool) (hm : s.markers = []) :
+    handleD s p ws [] = handle s p ws :=
+  handleD_eq_handle s p ws hm
+
+/-- **A recent dial failure is remembered by `handlePkt` too.**  A packet whose look-up finds nothing and
+whose dial key carries an unexpired failure marker is dropped without a dial and without any state change,
+whatever the scripted outcomes would have been. -/
+theorem route_recent_dial_failure_drops_without_dial (s : Route.St) (p : Pkt) (ws ds : List Bool) (t : Nat)
+    (h : lookup s p = none) (hg : Route.get s (dialKey false p.scope p.force p.d) = none)
+    (hm : markerOf s (dialKey false p.scope p.force p.d) = some t) (hlt : s.now < t) :
+    handleD s p ws ds = (s, none) :=
+  handleD_blocked ws ds t h hg hm hlt
+
+/-- a failed dial (marker for 2 s), the next packet 1.999 s later is dropped without a dial, the one after
+the marker's expiry dials again -/
+def exFail1 : Route.St := (handleD Route.init (exFlow false false) [] [false]).1
+def exFail2 : Route.St := Route.advance exFail1 1999000000
+def exFail3 : Route.St := Route.advance exFail2 1000000
+
+example : exFail1.fails = 1 ∧ exFail1.dials = 0 ∧
+    (handleD exFail2 (exFlow false false) [] []).2 = none ∧ (handleD exFail2 (exFlow false false) [] []).1.dials = 0 ∧
+    (handleD exFail2 (exFlow false false) [] []).1.fails = 1 ∧
+    (handleD exFail3 (exFlow false false) [] []).1.dials = 1 ∧ (handleD exFail3 (exFlow false false) [] []).2 = some 0 := by
+  decide
+
 end HandlePkt
 
 /-! ## ingress batches (`udp_ingress_batch.go`) -/
+section Ingress
+open Ingress
+
+/-- **From the socket to the queues: per-flow execution order = the order the datagrams were read.**
+One reader goroutine (the `for` loop of `Serve`: its `EmitTask` calls happen one after the other) in front
+of the task queues, convoys interleaving freely with it: in every reachable state, for every flow `k`, the
+tasks finished for `k` followed by the tasks still waiting for `k` are exactly the ordered datagrams of `k`
+whose `enqueue` has run, each once, in arrival order (`arrivals[i] = k` for increasing `i`). -/
+theorem ingress_runs_in_arrival_order (cfg : TQ.Cfg) (hcfg : cfg.Repaired) (s : Sys.St)
+    (hr : Sys.Reachable cfg s) (k : Nat) :
+    s.tq.done k ++ TQ.pending s.tq k = Sys.idsUpTo s.arrivals k (Sys.enqCount s.tq) ∧
+    (Sys.idsUpTo s.arrivals k (Sys.enqCount s.tq)).Pairwise (· < ·) ∧
+    s.tq.np - 1 ≤ Sys.enqCount s.tq := by
+  refine ⟨?_, ?_, ?_⟩
+  · rw [tq_exactly_once_in_order cfg hcfg s.tq (Sys.tq_reachable hr) k]
+    exact (Sys.j_reachable hr).acc k
+  · unfold Sys.idsUpTo
+    exact List.Pairwise.filter _ (List.pairwise_lt_range)
+  · unfold Sys.enqCount
+    split
+    · omega
+    · split <;> omega
+
+/-- two datagrams of flow 0 with one of flow 1 in between; the first task has finished -/
+def exIngress : List Sys.Act :=
+  [ .arrive 0, .reader none, .reader none, .reader none, .reader none, .reader none, .reader none,
+    .conv 0 .recv, .conv 0 .recv,
+    .arrive 1, .reader none, .reader none, .reader none, .reader none, .reader none, .reader none,
+    .arrive 0, .reader none, .reader none, .reader none, .reader none ]
+
+theorem sys_reachable_of_run (cfg : TQ.Cfg) : ∀ (as : List Sys.Act) (s s' : Sys.St), Sys.Reachable cfg s →
+    Sys.run cfg s as = some s' → Sys.Reachable cfg s' := by
+  intro as
+  induction as with
+  | nil => intro s s' hr h; simp [Sys.run] at h; subst h; exact hr
+  | cons a as ih =>
+    intro s s' hr h
+    simp only [Sys.run] at h
+    cases hs : Sys.step cfg s a with
+    | none => simp [hs] at h
+    | some s1 => simp only [hs] at h; exact ih s1 s' (Sys.Reachable.step a hr hs) h
+
+example : ∃ s, Sys.Reachable TQ.fixedCfg s ∧ s.arrivals = [0, 1, 0] ∧ s.tq.done 0 = [0] ∧
+    TQ.pending s.tq 0 = [2] ∧ Sys.idsUpTo s.arrivals 0 (Sys.enqCount s.tq) = [0, 2] := by
+  cases h : Sys.run TQ.fixedCfg Sys.init exIngress with
+  | none => exact absurd h (by decide)
+  | some s =>
+    refine ⟨s, sys_reachable_of_run _ exIngress Sys.init s Sys.Reachable.init h, ?_, ?_, ?_, ?_⟩
+    · have : (Sys.run TQ.fixedCfg Sys.init exIngress).map (fun s => s.arrivals) = some [0, 1, 0] := by decide
+      rw [h] at this; simpa using this
+    · have : (Sys.run TQ.fixedCfg Sys.init exIngress).map (fun s => s.tq.done 0) = some [0] := by decide
+      rw [h] at this; simpa using this
+    · have : (Sys.run TQ.fixedCfg Sys.init exIngress).map (fun s => TQ.pending s.tq 0) = some [2] := by decide
+      rw [h] at this; simpa using this
+    · have : (Sys.run TQ.fixedCfg Sys.init exIngress).map
+          (fun s => Sys.idsUpTo s.arrivals 0 (Sys.enqCount s.tq)) = some [0, 2] := by decide
+      rw [h] at this; simpa using this
+
+/-- the reader never starts the next datagram's `EmitTask` inside the previous one: a second arrival is
+refused until the first call has returned (this is what "one goroutine" means in `Sys`) -/
+example : Sys.run TQ.fixedCfg Sys.init [.arrive 0, .reader none, .arrive 0] = none := by decide
+
+/-- **A flow is dispatched one way.**  The dispatch strategy and the queue key are functions of the
+converged source and destination: datagrams with the same flow key are either all handed to that flow's
+queue or all run directly, and an IPv4 peer seen through the dual-stack socket (IPv4-mapped IPv6) has the
+same flow key as the same peer seen as IPv4. -/
+theorem ingress_flow_dispatched_one_way (direct : List (Nat × Nat)) (d d' : Dgram)
+    (h : flowKey d = flowKey d') : ordered direct d = ordered direct d' := by
+  unfold flowKey at h
+  injection h with h1 h2
+  unfold ordered; rw [h1, h2]
+
+theorem ingress_mapped_peer_same_flow (x port : Nat) (hx : x < 2 ^ 32) :
+    converge ⟨true, v6Tag + 0xffff * 2 ^ 32 + x, port⟩ = ⟨true, v4Tag + x, port⟩ ∧
+    converge ⟨true, v4Tag + x, port⟩ = ⟨true, v4Tag + x, port⟩ := by
+  constructor
+  · unfold converge is4In6 v6Tag v4Tag
+    have h1 : (6 * 16 ^ 32 + 0xffff * 2 ^ 32 + x) / 16 ^ 32 = 6 := by omega
+    have h2 : (6 * 16 ^ 32 + 0xffff * 2 ^ 32 + x) % 16 ^ 32 / 2 ^ 32 = 0xffff := by omega
+    have h3 : (6 * 16 ^ 32 + 0xffff * 2 ^ 32 + x) % 2 ^ 32 = x := by omega
+    simp [h1, h2, h3]
+  · unfold converge is4In6 v4Tag
+    have h1 : (4 * 16 ^ 8 + x) / 16 ^ 32 = 0 := by omega
+    simp [h1]
+
+example : ordered Keys.directPortsDefault ⟨⟨true, v4Tag + 1, 4000⟩, ⟨true, v4Tag + 9, 443⟩⟩ = true ∧
+    ordered Keys.directPortsDefault ⟨⟨true, v4Tag + 1, 4000⟩, ⟨true, v4Tag + 9, 53⟩⟩ = false ∧
+    ordered Keys.directPortsDefault ⟨⟨true, v4Tag + 1, 5061⟩, ⟨true, v4Tag + 9, 5003⟩⟩ = true ∧
+    flowKey ⟨⟨true, v6Tag + 0xffff * 2 ^ 32 + 1, 4000⟩, ⟨true, v4Tag + 9, 443⟩⟩
+      = flowKey ⟨⟨true, v4Tag + 1, 4000⟩, ⟨true, v4Tag + 9, 443⟩⟩ := by decide
+
+/-- the specification the stream `c13_ing` is compared with lists, for a flow, exactly the positions of
+its ordered datagrams, in increasing order -/
+theorem ingress_spec_flow_order (direct : List (Nat × Nat)) (s : Spec.St) (key : Keys.AP × Keys.AP) :
+    (Spec.flowOrder direct s key).Pairwise (· < ·) ∧
+    ∀ i, i ∈ Spec.flowOrder direct s key ↔
+      ∃ d, s.arrived[i]? = some d ∧ ordered direct d = true ∧ flowKey d = key :=
+  Spec.flowOrder_spec direct s key
+
+example : Spec.flowOrder Keys.directPortsDefault
+    ⟨[⟨⟨true, v4Tag + 1, 4000⟩, ⟨true, v4Tag + 9, 443⟩⟩, ⟨⟨true, v4Tag + 1, 4000⟩, ⟨true, v4Tag + 9, 53⟩⟩,
+      ⟨⟨true, v6Tag + 0xffff * 2 ^ 32 + 1, 4000⟩, ⟨true, v4Tag + 9, 443⟩⟩]⟩
+    (⟨true, v4Tag + 1, 4000⟩, ⟨true, v4Tag + 9, 443⟩) = [0, 2] := by decide
+
+end Ingress
+
+
 section IngressBatch
 open Batch
 
